@@ -1,12 +1,17 @@
 import LaytheVerif.Model.Signature
+import LaytheVerif.Model.RecFrames
 /-! `drv_sig`: line-protocol driver for the signature model (C16 tie), same protocol as `harness/src/bin/vh_sig.rs`.
 
 request : `<F n | V n | D lo hi> ; <param kinds…> ; <f|m> ; <argument kinds…>`
 response: `civ=<r> sig=<r> arity=<r>`
 
 second engine `drv_sig frames`: `<start frames> ; <cycle of ops c|n|l|r …>` → `overflow frames=<n> calls=<k> natives=<j>`
-(the cycle is repeated up to the first `Stack overflow.`), `unbounded frames=<n>` (fuel ran out) or `stuck`. -/
-open LaytheVerif.Gen LaytheVerif.Signature
+(the cycle is repeated up to the first `Stack overflow.`), `unbounded frames=<n>` (fuel ran out) or `stuck`.
+
+engine `drv_sig rec`: `[<arm events separated by |> ;] <definition of the recursive function> ; <script>` — statements in prefix
+notation over `skip`, `seq A B`, `rec`, `call A`, `nat A`, `sl A`, `try A B` → `out=<ok|err|panic> frames=<n> roots=<difference to
+the start> peak=<n> calls=<n> caught=<n> first=<0|1|2>` or `out-of-fuel`.  Without the first field the arm is the model's `nativeArm`. -/
+open LaytheVerif.Gen LaytheVerif.Signature LaytheVerif.RecFrames
 
 /-- a parameter kind by the lower-cased name of its `ParameterKind` variant (the enum is regenerated) -/
 def parsePKind (s : String) : Option PKind := PKind.all.find? fun p => p.name.toLower == s
@@ -134,6 +139,44 @@ def stepDisplay (line : String) : String :=
     | _, _ => "bad-op"
   | _ => "bad-op"
 
+/-- one statement in prefix notation off the front of the token list -/
+partial def parseStm : List String → Option (Stm × List String)
+  | "skip" :: r => some (.skip, r)
+  | "rec" :: r => some (.rec_, r)
+  | "seq" :: r => do let (a, r1) ← parseStm r; let (b, r2) ← parseStm r1; pure (.seq a b, r2)
+  | "try" :: r => do let (a, r1) ← parseStm r; let (b, r2) ← parseStm r1; pure (.try_ a b, r2)
+  | "call" :: r => do let (a, r1) ← parseStm r; pure (.call a, r1)
+  | "nat" :: r => do let (a, r1) ← parseStm r; pure (.native a, r1)
+  | "sl" :: r => do let (a, r1) ← parseStm r; pure (.stackless a, r1)
+  | _ => none
+
+def parseWhole (s : String) : Option Stm :=
+  match parseStm (words s) with
+  | some (t, []) => some t
+  | _ => none
+
+def showOut : Out → String
+  | .ok => "ok" | .err => "err" | .panic => "panic"
+
+def stepRec (line : String) : String :=
+  let fields := (line.trimAscii.toString.splitOn ";").map (fun s => s.trimAscii.toString)
+  let go (arm : List Micro) (d m : String) : String :=
+    match parseWhole d, parseWhole m with
+    | some d, some m =>
+      let base := 1000
+      match run arm d 1000000 m (VmSt.script base) with
+      | none => "out-of-fuel"
+      | some (s, o) =>
+        s!"out={showOut o} frames={s.frames} roots={(s.roots : Int) - base} peak={s.peak} calls={s.calls} caught={s.caught} first={s.firstAt}"
+    | _, _ => "bad-op"
+  match fields with
+  | [d, m] => go nativeArm d m
+  | [a, d, m] =>
+    match allSome (((a.splitOn "|").map (fun s => s.trimAscii.toString)).map parseMicro) with
+    | some arm => go arm d m
+    | none => "bad-arm"
+  | _ => "bad-op"
+
 def stepHook (line : String) : String :=
   match Signal.all.find? (·.name == line.trimAscii.toString) with
   | some s => reprStr (hookStep s)
@@ -153,4 +196,5 @@ def main (args : List String) : IO UInt32 := do
   | ["frames"] => loop stdin stdout stepFrames; return 0
   | ["display"] => loop stdin stdout stepDisplay; return 0
   | ["hook"] => loop stdin stdout stepHook; return 0
-  | _ => IO.eprintln "usage: drv_sig [sig|frames|display|hook]"; return 2
+  | ["rec"] => loop stdin stdout stepRec; return 0
+  | _ => IO.eprintln "usage: drv_sig [sig|frames|display|hook|rec]"; return 2
